@@ -29,6 +29,8 @@ Inductive eff :=
 | AcqScope | RelScope      (* connection management scope opened / Done *)
 | AcqStrm | RelStrm        (* muxed or swarm stream opened / reset *)
 | AcqSScope | RelSScope    (* stream management scope opened / Done *)
+| AcqConn                  (* an upgraded connection is received from the accept queue: its raw
+                              conn and its scope are now this code's to release or hand on *)
 | RelConn                  (* transportConn.Close/CloseWithError: closes the muxed conn
                               (hence the raw conn) and Dones the scope (upgrader/conn.go) *)
 | HandOver                 (* ownership passes on: accept queue, stream registry, handler goroutine *)
@@ -38,7 +40,9 @@ Inductive eff :=
 (* conditions whose truth is determined by the abstract state (used to prune
    infeasible paths); all other conditions are free *)
 Inductive condk :=
-| CRetErrAndStream.        (* "strErr != nil && s != nil" in a deferred literal *)
+| CRetErrAndStream         (* "strErr != nil && s != nil" in a deferred literal *)
+| CEffect (etrue efalse : eff).   (* a condition whose outcome tells something about the
+                                     resources: the effect of the taken branch is applied *)
 
 Inductive aev :=
 | AEff (e : eff)
@@ -121,6 +125,15 @@ Definition fn_listener_go := mkFn "listener_go"
   [("l.incoming <- conn", HandOver)] [] Nop
   ["cancel"; "conn.RemotePeer"; "l.ctx.Err"; "l.threshold.Acquire"; "l.threshold.Release";
    "maconn.LocalMultiaddr"; "maconn.RemoteMultiaddr"; "wg.Done"].
+
+(* listener.Accept: one iteration of `for c := range l.incoming` *)
+Definition fn_listener_accept := mkFn "listener_accept"
+  [("c.IsClosed", (RelRaw, Nop, Nop));     (* IsClosed() = true: the muxed conn, hence the raw conn, is closed *)
+   ("c.Close", (RelConn, RelConn, RelConn))]
+  [] []
+  [("range l.incoming has next", CEffect AcqConn Nop)]
+  Nop
+  ["l.err.Error"; "strings.Contains"].
 
 Definition fn_gated_accept := mkFn "gated_accept"
   [("l.Listener.Accept", (AcqRaw, Nop, Impossible));
@@ -214,6 +227,7 @@ Definition apply_eff (s : st) (e : eff) : st :=
   | RelStrm => set_strm s Released
   | AcqSScope => set_sscope s Held
   | RelSScope => set_sscope s Released
+  | AcqConn => set_cscope (set_raw s Held) Held
   | RelConn => set_cscope (set_raw s Released) Released
   | HandOver => set_handed s
   | GoSpawn => set_gor s (S (gor s))
@@ -230,6 +244,7 @@ Definition astep (s : st) (a : aev) : option st :=
   | AInline f _ => Some (add_bad s ("not inlined: " ++ f))
   | ACond CRetErrAndStream b =>
       if Bool.eqb b (is_err (lastret s) && negb (res_eqb (strm s) Absent)) then Some s else None
+  | ACond (CEffect et ef) b => Some (apply_eff s (if b then et else ef))
   | ARet RTail => Some (match calleeret s with
                         | Some r => set_ret s r
                         | None => add_bad s "tail return without callee" end)
